@@ -55,7 +55,7 @@ class PolyAFixer:
         self.params = params
 
     def correct_read_info(self, read_exons, polya_info):
-        if len(read_exons) == 1:
+        if len(read_exons) <= 1:
             return 0, 0
 
         polya_exon_count = self.count_polya_exons(read_exons, polya_info.internal_polya_pos)
@@ -63,10 +63,11 @@ class PolyAFixer:
 
         if polyt_exon_count > 0 and polya_exon_count > 0:
             logger.debug("Both PolyA and PolyT fake terminal exons found: %d, %d" % (polya_exon_count, polyt_exon_count))
-        if polyt_exon_count + polya_exon_count == len(read_exons):
+        while polyt_exon_count + polya_exon_count >= len(read_exons):
+            # never trim all exons (counts may even overlap when polyT is detected to the right of polyA)
             logger.debug("All exons seem to be consist of polyA/T")
-            polyt_exon_count -= 1
-            polya_exon_count -= 1
+            polyt_exon_count = max(0, polyt_exon_count - 1)
+            polya_exon_count = max(0, polya_exon_count - 1)
 
         return polya_exon_count, polyt_exon_count
 
